@@ -1516,20 +1516,39 @@ impl<'a> Visitor<'a, '_, Error> for JSONValidator<'a> {
       }
     }
 
+    // A comparison control restricts its target type, so the value has to
+    // match the target as well (RFC 8610 §3.8). A member key is matched by the
+    // map machinery instead.
+    if let (
+      ControlOperator::EQ
+      | ControlOperator::NE
+      | ControlOperator::LT
+      | ControlOperator::LE
+      | ControlOperator::GT
+      | ControlOperator::GE,
+      Type2::Typename { .. },
+    ) = (ctrl, target)
+    {
+      if !self.state.is_member_key {
+        let error_count = self.errors.len();
+        self.visit_type2(target)?;
+        if self.errors.len() != error_count {
+          return Ok(());
+        }
+      }
+    }
+
     match ctrl {
       ControlOperator::EQ => match target {
-        Type2::Typename { ident, .. } => {
-          if is_ident_string_data_type(self.state.cddl, ident)
-            || is_ident_numeric_data_type(self.state.cddl, ident)
-          {
-            return self.visit_type2(controller);
-          }
-        }
+        // The value matched the target type above; it also has to match the
+        // controller
+        Type2::Typename { .. } => return self.visit_type2(controller),
         Type2::Array { .. } => {
           if let Value::Array(_) = &self.json {
             self.visit_type2(controller)?;
             return Ok(());
           }
+          self.add_error(format!("expected array, got {}", self.json));
         }
         Type2::Map { .. } => {
           if let Value::Object(_) = &self.json {
@@ -1540,6 +1559,7 @@ impl<'a> Visitor<'a, '_, Error> for JSONValidator<'a> {
             self.state.is_ctrl_map_equality = false;
             return Ok(());
           }
+          self.add_error(format!("expected object, got {}", self.json));
         }
         _ => self.add_error(format!(
           "target for .eq operator must be a string, numerical, array or map data type, got {}",
@@ -1556,6 +1576,20 @@ impl<'a> Visitor<'a, '_, Error> for JSONValidator<'a> {
             self.state.ctrl = None;
             return Ok(());
           }
+
+          // Any other target type matched above: the value must not match the
+          // controller as well
+          let error_count = self.errors.len();
+          self.visit_type2(controller)?;
+          if self.errors.len() == error_count {
+            self.add_error(format!(
+              "expected value .ne {}, got {}",
+              controller, self.json
+            ));
+          } else {
+            self.errors.truncate(error_count);
+          }
+          return Ok(());
         }
         Type2::Array { .. } => {
           if let Value::Array(_) = &self.json {
@@ -1564,6 +1598,7 @@ impl<'a> Visitor<'a, '_, Error> for JSONValidator<'a> {
             self.state.ctrl = None;
             return Ok(());
           }
+          self.add_error(format!("expected array, got {}", self.json));
         }
         Type2::Map { .. } => {
           if let Value::Object(_) = &self.json {
@@ -1574,6 +1609,7 @@ impl<'a> Visitor<'a, '_, Error> for JSONValidator<'a> {
             self.state.is_ctrl_map_equality = false;
             return Ok(());
           }
+          self.add_error(format!("expected object, got {}", self.json));
         }
         _ => self.add_error(format!(
           "target for .ne operator must be a string, numerical, array or map data type, got {}",
